@@ -58,3 +58,21 @@ Proofs/FixintFacts.vos Proofs/FixintFacts.vok Proofs/FixintFacts.required_vos: P
 Properties/C13.vo Properties/C13.glob Properties/C13.v.beautified Properties/C13.required_vo: Properties/C13.v Model/Base.vo Model/MachineInt.vo Model/DataModel.vo Model/Ser.vo Model/De.vo Model/Fixint.vo Proofs/FixintFacts.vo
 Properties/C13.vio: Properties/C13.v Model/Base.vio Model/MachineInt.vio Model/DataModel.vio Model/Ser.vio Model/De.vio Model/Fixint.vio Proofs/FixintFacts.vio
 Properties/C13.vos Properties/C13.vok Properties/C13.required_vos: Properties/C13.v Model/Base.vos Model/MachineInt.vos Model/DataModel.vos Model/Ser.vos Model/De.vos Model/Fixint.vos Proofs/FixintFacts.vos
+Proofs/ValueInd.vo Proofs/ValueInd.glob Proofs/ValueInd.v.beautified Proofs/ValueInd.required_vo: Proofs/ValueInd.v Model/Base.vo Model/DataModel.vo
+Proofs/ValueInd.vio: Proofs/ValueInd.v Model/Base.vio Model/DataModel.vio
+Proofs/ValueInd.vos Proofs/ValueInd.vok Proofs/ValueInd.required_vos: Proofs/ValueInd.v Model/Base.vos Model/DataModel.vos
+Proofs/SerFacts.vo Proofs/SerFacts.glob Proofs/SerFacts.v.beautified Proofs/SerFacts.required_vo: Proofs/SerFacts.v Model/Base.vo Model/MachineInt.vo Model/VarintParams.vo Gen/GenArith.vo Gen/GenLoops.vo Model/Varint.vo Model/Utf8.vo Model/DataModel.vo Model/Ser.vo Spec/WireFormat.vo Proofs/BaseFacts.vo Proofs/BitFacts.vo Proofs/VarintFacts.vo Proofs/VarintCore.vo Proofs/ZigZagFacts.vo Proofs/ValueInd.vo
+Proofs/SerFacts.vio: Proofs/SerFacts.v Model/Base.vio Model/MachineInt.vio Model/VarintParams.vio Gen/GenArith.vio Gen/GenLoops.vio Model/Varint.vio Model/Utf8.vio Model/DataModel.vio Model/Ser.vio Spec/WireFormat.vio Proofs/BaseFacts.vio Proofs/BitFacts.vio Proofs/VarintFacts.vio Proofs/VarintCore.vio Proofs/ZigZagFacts.vio Proofs/ValueInd.vio
+Proofs/SerFacts.vos Proofs/SerFacts.vok Proofs/SerFacts.required_vos: Proofs/SerFacts.v Model/Base.vos Model/MachineInt.vos Model/VarintParams.vos Gen/GenArith.vos Gen/GenLoops.vos Model/Varint.vos Model/Utf8.vos Model/DataModel.vos Model/Ser.vos Spec/WireFormat.vos Proofs/BaseFacts.vos Proofs/BitFacts.vos Proofs/VarintFacts.vos Proofs/VarintCore.vos Proofs/ZigZagFacts.vos Proofs/ValueInd.vos
+Proofs/Utf8Facts.vo Proofs/Utf8Facts.glob Proofs/Utf8Facts.v.beautified Proofs/Utf8Facts.required_vo: Proofs/Utf8Facts.v Model/Base.vo Model/Utf8.vo
+Proofs/Utf8Facts.vio: Proofs/Utf8Facts.v Model/Base.vio Model/Utf8.vio
+Proofs/Utf8Facts.vos Proofs/Utf8Facts.vok Proofs/Utf8Facts.required_vos: Proofs/Utf8Facts.v Model/Base.vos Model/Utf8.vos
+Proofs/DeFacts.vo Proofs/DeFacts.glob Proofs/DeFacts.v.beautified Proofs/DeFacts.required_vo: Proofs/DeFacts.v Model/Base.vo Model/MachineInt.vo Model/VarintParams.vo Gen/GenArith.vo Gen/GenLoops.vo Model/Varint.vo Model/Utf8.vo Model/DataModel.vo Model/Ser.vo Model/De.vo Spec/WireFormat.vo Proofs/BaseFacts.vo Proofs/BitFacts.vo Proofs/VarintFacts.vo Proofs/VarintCore.vo Proofs/ZigZagFacts.vo Proofs/ValueInd.vo Proofs/SerFacts.vo Proofs/Utf8Facts.vo Proofs/FixintFacts.vo
+Proofs/DeFacts.vio: Proofs/DeFacts.v Model/Base.vio Model/MachineInt.vio Model/VarintParams.vio Gen/GenArith.vio Gen/GenLoops.vio Model/Varint.vio Model/Utf8.vio Model/DataModel.vio Model/Ser.vio Model/De.vio Spec/WireFormat.vio Proofs/BaseFacts.vio Proofs/BitFacts.vio Proofs/VarintFacts.vio Proofs/VarintCore.vio Proofs/ZigZagFacts.vio Proofs/ValueInd.vio Proofs/SerFacts.vio Proofs/Utf8Facts.vio Proofs/FixintFacts.vio
+Proofs/DeFacts.vos Proofs/DeFacts.vok Proofs/DeFacts.required_vos: Proofs/DeFacts.v Model/Base.vos Model/MachineInt.vos Model/VarintParams.vos Gen/GenArith.vos Gen/GenLoops.vos Model/Varint.vos Model/Utf8.vos Model/DataModel.vos Model/Ser.vos Model/De.vos Spec/WireFormat.vos Proofs/BaseFacts.vos Proofs/BitFacts.vos Proofs/VarintFacts.vos Proofs/VarintCore.vos Proofs/ZigZagFacts.vos Proofs/ValueInd.vos Proofs/SerFacts.vos Proofs/Utf8Facts.vos Proofs/FixintFacts.vos
+Properties/C01.vo Properties/C01.glob Properties/C01.v.beautified Properties/C01.required_vo: Properties/C01.v Model/Base.vo Model/MachineInt.vo Model/DataModel.vo Model/Ser.vo Model/De.vo Proofs/DeFacts.vo
+Properties/C01.vio: Properties/C01.v Model/Base.vio Model/MachineInt.vio Model/DataModel.vio Model/Ser.vio Model/De.vio Proofs/DeFacts.vio
+Properties/C01.vos Properties/C01.vok Properties/C01.required_vos: Properties/C01.v Model/Base.vos Model/MachineInt.vos Model/DataModel.vos Model/Ser.vos Model/De.vos Proofs/DeFacts.vos
+Properties/C02.vo Properties/C02.glob Properties/C02.v.beautified Properties/C02.required_vo: Properties/C02.v Model/Base.vo Model/MachineInt.vo Model/VarintParams.vo Gen/GenArith.vo Gen/GenLoops.vo Model/Varint.vo Model/Utf8.vo Model/DataModel.vo Model/Ser.vo Model/De.vo Spec/WireFormat.vo Proofs/VarintFacts.vo Proofs/VarintCore.vo Proofs/ZigZagFacts.vo Proofs/SerFacts.vo
+Properties/C02.vio: Properties/C02.v Model/Base.vio Model/MachineInt.vio Model/VarintParams.vio Gen/GenArith.vio Gen/GenLoops.vio Model/Varint.vio Model/Utf8.vio Model/DataModel.vio Model/Ser.vio Model/De.vio Spec/WireFormat.vio Proofs/VarintFacts.vio Proofs/VarintCore.vio Proofs/ZigZagFacts.vio Proofs/SerFacts.vio
+Properties/C02.vos Properties/C02.vok Properties/C02.required_vos: Properties/C02.v Model/Base.vos Model/MachineInt.vos Model/VarintParams.vos Gen/GenArith.vos Gen/GenLoops.vos Model/Varint.vos Model/Utf8.vos Model/DataModel.vos Model/Ser.vos Model/De.vos Spec/WireFormat.vos Proofs/VarintFacts.vos Proofs/VarintCore.vos Proofs/ZigZagFacts.vos Proofs/SerFacts.vos
